@@ -265,15 +265,13 @@ def deadStaticLocalRegion (ds : List Decl) : Bool :=
       | .staticLocal _ _ (some init) => init.any (fun j => match j with | .ref _ => true | _ => false)
       | _ => false))
 
-/-- C15-tentative-composite-size: an object whose first tentative definition leaves the array length open
-    while another declaration gives it -/
+/-- C15-tentative-composite-size: every tentative definition of the object leaves the array length open
+    and only a declaration that is not a definition (`extern T x[N];`) gives it -/
 def compositeSizeRegion (ds : List Decl) : Bool :=
   (objNames ds).any (fun x =>
     let D := objDecls ds x
-    !objHasInit D &&
-    match D.find? (fun d => !d.isExtern) with
-    | some d => d.ty.unknownLen && D.any (fun e => !e.ty.unknownLen)
-    | none => false)
+    !objHasInit D && objDefined D &&
+    (D.filter (fun d => !d.isExtern)).all (·.ty.unknownLen) && D.any (fun e => !e.ty.unknownLen))
 
 /-! ### which address forms are valid for which entity (x86-64 psABI 3.5 code models, ELF TLS ABI)
 
